@@ -230,8 +230,8 @@ def r72(ctx, fx, et):
 
 def r73(ctx, fx, et):
     rid = ctx.rule("R7.3", "macro invocation: the arity check (expect_args(len(args), len(def.args))) precedes the binding; parameter i is bound to argument i "
-                   "(the enumerate index selects the argument) as MacroArgument inside a fresh scope whose name derives from next_macro_scope_id, which is "
-                   "incremented per invocation; the body emitted is the definition's block")
+                   "(the enumerate index selects the argument) as MacroArgument inside a scope of its own that is named after the place of the invocation (its span: the same in "
+                   "every pass, unlike a running number) and carries the `-` / `+` of the definition's block; the body emitted is the definition's block")
     arm = token_arm(et, "MacroInvocation")
     if arm is None:
         ctx.fail_closed(rid, "Token::MacroInvocation arm not found")
@@ -263,18 +263,31 @@ def r73(ctx, fx, et):
     # `?` on the arity result: the call is inside a Try desugar whose residual returns
     sc = order[1][1]
     clo = lib.strip(lib.hargs(sc)[3])
+    # the body is a block like any other: its scope gets the `-` / `+` of the definition's braces (regression guard)
+    ctx.inst(rid, key + "|block-labels")
+    blk = lib.hdesc(lib.hargs(sc)[2])
+    if "block" not in repr(blk):
+        ctx.finding(rid, key + "|block-labels", "the scope of a macro expansion is entered without the macro's block (%s): `-` and `+` in the body are undefined or, inside "
+                    "a brace scope, silently refer to the start / end of that enclosing scope, where the expansion written out by hand refers to its own" % (blk,),
+                    "%s:%s" % (et.file, sc.get("ln")))
     # scope name
     ctx.inst(rid, key + "|fresh-scope")
     scope_arg = lib.hpath(lib.hargs(sc)[1])
-    fresh = False
+    fresh = counter = False
+    id_var = b.get("id")
     for n in lib.hwalk(body):
         if n.get("k") == "let" and n["pat"].get("name") == scope_arg and "init" in n:
-            fresh = any(x.get("k") == "field" and x["name"] == "next_macro_scope_id" for x in lib.hwalk(n["init"]))
-    incr = any(x.get("k") == "assignop" and x["op"] == "AddAssign" and lib.hdesc(x["l"])[:2] == ("f", "next_macro_scope_id") and lib.hlit(x["r"]) == 1
-               for x in lib.hwalk(body))
-    if not (fresh and incr):
-        ctx.finding(rid, key + "|fresh-scope", "every macro invocation must expand in a fresh scope (name from next_macro_scope_id: %s, counter incremented: %s)" % (fresh, incr),
-                    "%s:%s" % (et.file, sc.get("ln")))
+            d = repr(lib.hdesc(n["init"]))
+            fresh = any(x.get("k") == "field" and x["name"] == "span" and lib.hpath(x["e"] if "e" in x else x.get("a", {})) == id_var for x in lib.hwalk(n["init"])) or \
+                ("'span'" in d and repr(("v", id_var)) in d)
+            counter = any(x.get("k") == "field" and lib.hpath(x.get("e", x.get("a", {}))) == "self" for x in lib.hwalk(n["init"]))
+    if counter:
+        ctx.finding(rid, key + "|fresh-scope", "the scope of a macro expansion is named after a running number of the code generator: an invocation that is reached only "
+                    "once a forward referenced `.if` condition is known shifts the numbers of all later invocations, which inherit the symbols an earlier pass left "
+                    "in the scope of another macro (`cannot redefine symbol: $macro_0.x`, or silently the wrong `x`)", "%s:%s" % (et.file, sc.get("ln")))
+    elif not fresh:
+        ctx.finding(rid, key + "|fresh-scope", "every macro invocation must expand in a scope of its own, named the same in every pass (after the place of the "
+                    "invocation: its span)", "%s:%s" % (et.file, sc.get("ln")))
     # binding loop
     ctx.inst(rid, key + "|binding")
     fl = [n for n in lib.hwalk(clo.get("body", {})) if n.get("k") == "match" and n.get("src") == "ForLoopDesugar"]
@@ -310,7 +323,7 @@ def r73(ctx, fx, et):
                     "%s:%s" % (et.file, sc.get("ln")))
     ctx.inst(rid, key + "|body")
     em = [lib.hdesc(lib.hargs(x)[1]) for x, p in lib.hir_calls(clo.get("body", {}), "CodegenContext::emit_tokens")]
-    if not (len(em) == 1 and em[0][:2] == ("f", "block")):
+    if not (len(em) == 1 and (em[0][:2] == ("f", "block") or (em[0][:2] == ("f", "inner") and em[0][2][:2] == ("f", "block")))):
         ctx.finding(rid, key + "|body", "the expansion does not emit exactly the macro definition's block: %s" % em, "%s:%s" % (et.file, sc.get("ln")))
 
 
